@@ -18,6 +18,40 @@ import (
 // Oracle (written from the property text, not from cell.go): a shadow W×H array of what was stored, a
 // snapshot per cell of what GetContent reported when it was last marked clean, the set of locked cells.
 
+// fillSpecial: rune values Fill is exercised with besides ordinary width-1 runes (cb, draw): DEL, C1 controls, soft
+// hyphen, zero-width / bidi / format characters, combining marks, a tag character, a surrogate, non-characters, negative
+// and out-of-range values.  Fill's documentation excludes only combining characters and wide runes; the property
+// statements (C08 "a blank of width 1 for zero-width or control runes", C09 "no rune supplied as primary cell content")
+// quantify over all of them.
+var fillSpecial = []int{0x7f, 0x80, 0x85, 0x9b, 0x9f, 0xad, 0x200b, 0x200d, 0x200e, 0x202e, 0x2060, 0xfeff, 0x301, 0x20dd,
+	0xe0001, 0xd800, 0xfffe, -1, -0x80000000, 0x110000, 0x7fffffff}
+
+// fillZWSuffix probes the tree under test once per process (public CellBuffer API only): "+fz" when Fill stores a
+// zero-width rune with width 0, so that GetContent shows a blank exactly as after SetContent
+// (fixes/C09-fill-zero-width.patch); "" for the pinned Fill (width 1 for every rune, cell.go:244).  The flag travels on
+// the case lines (after the entry name for draw / modes, as the pseudo-op `V fz` for cb, as the sixth variant letter
+// for sim, as the pseudo-op `variant fz` for wasm draw) and selects the model variant in the Lean driver; no oracle
+// looks at it.
+var fillZWVariant *string
+
+func fillZWSuffix() string {
+	if fillZWVariant != nil {
+		return *fillZWVariant
+	}
+	s := ""
+	func() {
+		defer func() { _ = recover() }()
+		var cb tcell.CellBuffer
+		cb.Resize(1, 1)
+		cb.Fill(0x200b, tcell.StyleDefault)
+		if m, _, _, w := cb.GetContent(0, 0); m == ' ' && w == 1 {
+			s = "+fz"
+		}
+	}()
+	fillZWVariant = &s
+	return s
+}
+
 type cbContent struct {
 	main  int
 	comb  string
@@ -130,8 +164,13 @@ func execCB(line string) h.Result {
 	var obs []string
 	var res h.Result
 	tags := map[string]bool{}
+	fzLine := ""
 	for _, op := range h.SplitTrim(rest, ";") {
 		f := strings.Fields(op)
+		if len(f) == 2 && f[0] == "V" && f[1] == "fz" { // variant marker for the Lean driver, see fillZWSuffix
+			fzLine = "+fz"
+			continue
+		}
 		switch f[0] {
 		case "S":
 			x, y, m, comb, st := h.Atoi(f[1]), h.Atoi(f[2]), h.Atoi(f[3]), h.IntList(f[4]), ParseStyleF(f[5])
@@ -146,6 +185,11 @@ func execCB(line string) h.Result {
 				oldw := 0
 				if got := sh.wideFil[k]; got {
 					oldw = 1
+					if runewidth.RuneWidth(rune(old.main)) == 0 {
+						// a zero-width rune covers no column: nothing is forced dirty by replacing it (the repaired Fill
+						// records width 0 for it; the pinned Fill records 1 and forces, which the property does not ask for)
+						oldw = 0
+					}
 				} else {
 					oldw = runewidth.RuneWidth(rune(old.main))
 				}
@@ -273,6 +317,9 @@ func execCB(line string) h.Result {
 		}
 	}
 	res.Obs = strings.Join(obs, " ") + " H " + dumpCB(&cb)
+	if fzLine != fillZWSuffix() {
+		res.Obs = "SKIP line recorded on a tree of the other Fill variant: judged by the oracle only"
+	}
 	for t := range tags {
 		res.Tags = append(res.Tags, t)
 	}
@@ -287,6 +334,9 @@ func genCB(g *h.Gen) {
 		w, hh := r.Range(0, 6), r.Range(0, 4)
 		if r.Chance(90) {
 			w, hh = r.Range(1, 6), r.Range(1, 4)
+		}
+		if fillZWSuffix() != "" {
+			ops = append(ops, "V fz")
 		}
 		ops = append(ops, fmt.Sprintf("R %d %d", w, hh))
 		nops := r.Range(5, 60)
@@ -355,7 +405,16 @@ func genCB(g *h.Gen) {
 				set(cx(), cy(), RandRune(r), RandComb(r), RandStyle(r).String())
 			case k < 50:
 				fr := h.Pick(r, []int{' ', 'x', '.', 0x2500, 0x4e16, 0, 7})
+				if r.Chance(40) {
+					fr = h.Pick(r, fillSpecial)
+				}
 				ops = append(ops, fmt.Sprintf("F %d %s", fr, RandStyle(r)))
+				if r.Chance(50) { // look at a cell right away, then rewrite it with the same / another rune
+					ops = append(ops, fmt.Sprintf("G %d %d", r.Range(0, w), r.Range(0, hh)))
+				}
+				if r.Chance(30) {
+					set(cx(), cy(), h.Pick(r, []int{fr, fr, 'y', 0x4e16}), nil, RandStyle(r).String())
+				}
 			case k < 55:
 				lastW, lastH := w, hh
 				w, hh = r.Range(0, 6), r.Range(0, 4)
